@@ -596,6 +596,21 @@ class Sym:
             if kind == 'Result':
                 return done(('agg', 'core::result::Result', 'Err', {'0': ('conv', 'from', ('f', ('dc', x, 'Err'), '0'))}))
             return done(('agg', 'core::option::Option', 'None', {}))
+        if sp == 'core::mem::replace' and len(args) == 2 and t['args'][0].get('k') in ('copy', 'move') and not t['args'][0]['p']['pr'] and t['args'][0]['p']['l'] in st.mutref:
+            # mem::replace(&mut place, v): yields the old value of place and stores v
+            l0, pt0 = st.mutref[t['args'][0]['p']['l']]
+            while pt0[0] == 'upd':
+                pt0 = pt0[1]
+            if pt0[0] in ('f', 'idx', 'dc'):
+                key0 = tstr(pt0, 100000)
+                oldv = st.heap.get(key0, pt0)
+                st.heap[key0] = args[1]
+                st.effects.append(('store', pt0, args[1], blk))
+                return done(oldv)
+            if pt0[0] in ('v', 't') and not t['args'][0]['p']['pr']:
+                oldv = self.read_local(st, l0)
+                st.env[l0] = args[1]
+                return done(oldv)
         if re.search(r'core::bool::(<impl bool>::)?then(_some)?$', sp) and len(args) == 2:
             # c.then(|| x) / c.then_some(x)  =  if c { Some(x) } else { None }
             lazy = not sp.endswith('then_some')
